@@ -2,6 +2,7 @@ import Poulpy.Lemmas.NoiseAlg
 import Poulpy.Model.NoiseBounds
 import Poulpy.Props.C13Kernel
 import Poulpy.Lemmas.CmuxMachine
+import Poulpy.Lemmas.WordExec
 /-
 C15 (with C13) — NOISE through the BDD evaluation, the word operations and re-preparation.
 
@@ -214,6 +215,53 @@ theorem ep_contract {N : Nat} (big128 : Bool) (rb rs ab : Nat) (a : List Col) (g
   obtain ⟨res, h1, _, _, h4⟩ := EpCoeff.ep_coeff big128 rb rs ab a g sk bit Hin Da Dm BE hg hrb1 hrb hab1 hab hgb1 hgb hH0 hH hb hDa hDm hadm hgd
     σ EL K hEL hBE hd hd2 hN hn hM hS hkey hcov1 hcov2 hsk hσ0 hσ
   exact ⟨res, h1, h4⟩
+
+/-! ### the packed word, executed: PackCoeffContract discharged by C03
+
+`Lemmas/WordExec.lean`: `word_slot_executed` composes the coefficient reading of the bit ciphertext (the executed CMux chain) with
+`C03.glwe_pack_decrypts_noise` (the executed `glwe_pack`; `C03.glwe_pack_slot_contract` is the same statement in the form of the abstract
+`pack_spec`), through `slot_glue` and `KsDec.cmod_add_mul`.  Setting of C03's theorem: ciphertexts and automorphism keys in the SAME radix, keys with
+`dsize = 1` (`C03.merge_key_ok_of_d1` gives `PackKeys` from the keys' own error bound).  -/
+
+/-- **`word_op_correct` without the CMux and pack contracts** (slot form, `add`; the other operations: their table and depth): bit `i` of `a + b` is
+evaluated by the executed chain of CMux (`CmuxMachine.machine`), the 32 results are packed by the executed `Ks.pack`; the decryptor's reading of the slot
+of bit `i` (`KsDec.slotRead`) is the constant coefficient `m` of the trivial encryption of `(a+b)_i` up to `64·errBound/2^(b·S) + Bp`.  Hypotheses: good
+prepared bits (C01), the keys of the packing (`PackKeys`: C03 `merge_key_ok_of_d1`), head-room, and the no-wrap inequality. -/
+theorem add_word_slot_executed (p : CmuxMachine.Par) (hp : p.ok) (K : ℕ) (hNK : p.N = 2 ^ K) (hK : K + 1 ≤ 64)
+    (one zero : List Col) (h1 : CmuxMachine.WfC p one) (h0 : CmuxMachine.WfC p zero) (a b : BitVec 32) (g : Nat → CmuxMachine.GBit p.N)
+    (hin : ∀ k, k < 64 → CmuxMachine.Good p (g k) ∧ (g k).bit = inp2 a b k) (i : Nat) (hi : i < 32)
+    (c : List Col) (hc : (CmuxMachine.machine p hp one zero h1 h0).evalFlatC 64 (Add.width i) (Add.flat i) g = some c)
+    (big128 : Bool) (keys : List Ks.Key) (Sk : ℕ) (H : ℤ) (hH : 2 ^ p.b - 1 ≤ H) (hh2 : NormL.HeadRoom 64 p.b 0 (H + H))
+    (BA : ℕ → ℤ) (hBA : ∀ j, 0 ≤ BA j) (hsk : Ks.AllLen (2 ^ K) p.sk)
+    (hkeys : KsDec.PackKeys big128 K p.b p.rs Sk p.rank p.sk keys BA)
+    (sm : Ks.SlotMap) (logGapOut : ℕ) (res : Ks.Ct) (hsm : ∀ j, KsDec.OptInv (2 ^ K) p.b p.rs p.rank H (sm.get j))
+    (hpack : Ks.pack big128 (2 ^ K) p.b keys p.b p.rs sm logGapOut = .ok res) (Bp : ℤ)
+    (hBp : ∑ l ∈ Finset.range (K - logGapOut), 2 ^ (K - logGapOut - 1 - l) * KsDec.mergeBeta p.b p.rs Sk p.rank p.sk (BA l)
+          + 2 * ∑ t ∈ Finset.range (K - (K - logGapOut)),
+              (KsDec.cc p.b p.rs Sk * (2 * (1 + C02L.snorm (min p.rank p.sk.length) p.sk)) + BA (K - logGapOut + t)) ≤ (2 * KsDec.cc p.b p.rs Sk) * Bp)
+    (J : ℕ) (hJ : J < 2 ^ K) (hgap : J % 2 ^ (K - (K - logGapOut)) = 0) (hslot : sm.get J = some (Ks.mkCt p.b (2 ^ K) c))
+    (hfit : 2 * (2 ^ (p.b * p.S) * (|Core.valCoeff p.b (Core.Ops.phase p.sk (Ks.mkCt p.b (2 ^ K) (if (a + b).getLsbD i then one else zero))) 0| + Bp)
+      + 64 * p.errBound) < 2 ^ (p.b * p.S) * 2 ^ (p.b * p.rs)) :
+    2 ^ (p.b * p.S) * |KsDec.slotRead p.b p.rs (2 ^ K) p.sk res J
+        - Core.valCoeff p.b (Core.Ops.phase p.sk (Ks.mkCt p.b (2 ^ K) (if (a + b).getLsbD i then one else zero))) 0|
+      ≤ 64 * p.errBound + 2 ^ (p.b * p.S) * Bp := by
+  obtain ⟨c', hc', hb⟩ := add_bits_noise_executed p hp one zero h1 h0 a b g hin i hi
+  have hcc : c' = c := by rw [hc] at hc'; injection hc' with h; exact h.symm
+  subst hcc
+  have hNpos : 0 < p.N := hp.1
+  obtain ⟨e1, q1, he1, hb1⟩ := hb 0 hNpos
+  rw [hNK] at he1
+  have hv : ∀ col : Col, (C02L.valP p.b (2 ^ K) col).getD 0 0 = Core.valCoeff p.b col 0 := by
+    intro col
+    have : 0 < 2 ^ K := by positivity
+    simp [C02L.valP, List.getD_eq_getElem?_getD, List.getElem?_map, List.getElem?_range this]
+  apply WordExec.word_slot_executed big128 K hK keys p.sk p.b p.rs Sk p.rank p.S (by have := hp.2.2.1; omega) H hH hh2 BA hBA hsk hkeys sm logGapOut res
+    hsm hpack Bp hBp J hJ hgap _ hslot _ (64 * p.errBound)
+  · refine ⟨e1, q1, ?_, hb1⟩
+    rw [hv]
+    have e : (2 : ℤ) ^ (p.b * p.rs + p.b * p.S) = 2 ^ (p.b * p.S) * 2 ^ (p.b * p.rs) := by rw [pow_add]; ring
+    rw [he1, e]
+  · exact hfit
 
 /-! ### the numeric conditions with the PROVED bound (`NoiseB.cmuxProved`), on the crate's test parameters
 
